@@ -10,6 +10,8 @@ from ..core import FUNC, call_attr, calls_in, const, dotted, is_const, kwarg, no
 from .c01 import field_rules
 
 EXPLANATION = [
+    'C18.rtp-tail: MediaPacket.from_bytes hands the constructor data[12 + 4*CC:] untouched on every path (symbolic value of the returned constructor call), the constructor stores it unchanged and __bytes__ ends with it: what the parser took as payload is what the serialiser writes.',
+    'C18.fresh-values: no from_*/parse*/create* function of the codec modules carries a memoising decorator (lru_cache, cache, ...): a parse result is never shared with an earlier parse, so it cannot depend on the history of the process.',
     'C18.sdp-depth: the SDP parser\'s nesting counter is restored on every normal exit (same rule as C17.depth-balance), so what was parsed before does not change what parses next.',
     'C18.length-prefix: in every writer of the form <length of x> + <payload>, the length measured and the payload appended are the same value (byte length of the encoded text, not character count).',
     'C18.fields: the declarative-field rules of C01 applied to every metadata-declared class of L2CAP, ATT, SMP, SDP, AVDTP and AVRCP.',
@@ -438,6 +440,81 @@ def generic(ctx):
 
 
 
+def rtp_tail(ctx):
+    """RTP: the serialiser emits header, CSRC list, then the payload as it is; the parser hands the constructor everything
+    after the CSRC list as it is (on every path), and the fields it passes are the constructor's parameters in order."""
+    from .. import paths
+    from ..sym import Sym, exits, lin, lin_eq
+    R, p = ctx.r, ctx.p
+    rule = 'C18.rtp-tail'
+    fb = p.find('bumble.rtp.MediaPacket.from_bytes')
+    tb = p.find('bumble.rtp.MediaPacket.__bytes__')
+    init = p.find('bumble.rtp.MediaPacket.__init__')
+    if fb is None or tb is None or init is None:
+        R.bad(rule, 'bumble.rtp.MediaPacket', 'anchor missing')
+        return
+    res = paths.run(fb, Sym(), Sym.init())
+    outs = exits(res, kinds=('ret',))
+    params = [a.arg for a in init.args.args[1:]]
+    bad, n = [], 0
+    for kind, facts, store, extra, w in outs:
+        rt = store.get('<return>')
+        try:
+            call = ast.parse(rt, mode='eval').body
+        except (SyntaxError, TypeError):
+            bad.append(f'unreadable return {rt!r}')
+            continue
+        if not (isinstance(call, ast.Call) and call_attr(call) == 'MediaPacket' and len(call.args) == len(params) and not call.keywords):
+            bad.append(f'return value is not MediaPacket(<{len(params)} positional fields>)')
+            continue
+        n += 1
+        pl = call.args[params.index('payload')]
+        ok = isinstance(pl, ast.Subscript) and dotted(pl.value) == 'data' and isinstance(pl.slice, ast.Slice) and pl.slice.upper is None and pl.slice.step is None and pl.slice.lower is not None \
+            and lin_eq(lin(pl.slice.lower), lin('12 + 4 * (data[0] & 15)'))
+        if not ok:
+            bad.append(f'payload = {norm(pl)[:120]}')
+    R.check(n >= 1 and not bad, rule, 'bumble.rtp.MediaPacket.from_bytes | payload is the whole tail', 'on every path the payload handed to the constructor is data[12 + 4 * CC:], untouched',
+            'the parser alters the payload (strips or cuts part of the tail) while the serialiser writes it as it is: a parsed packet does not re-serialise to the bytes it came from', p.loc(fb), bad[:3])
+    rets = [n_ for n_ in walk_local(tb) if isinstance(n_, ast.Return)]
+    R.check(len(rets) == 1 and norm(rets[0].value) == 'header + self.payload', rule, 'bumble.rtp.MediaPacket.__bytes__ | payload last, as is', 'serialised as header + self.payload', 'the serialiser no longer ends with the untouched payload', p.loc(tb))
+    stores = {dotted(n_.targets[0])[5:]: norm(n_.value) for n_ in walk_local(init) if isinstance(n_, ast.Assign) and (dotted(n_.targets[0]) or '').startswith('self.')}
+    R.check(stores.get('payload') == 'payload' and stores.get('padding') == 'padding', rule, 'bumble.rtp.MediaPacket.__init__ | payload stored as given', 'payload and padding flag stored unchanged', f'constructor transforms payload/padding: {stores.get("payload")}, {stores.get("padding")}', p.loc(init))
+
+
+MEMO_DECORATORS = ('lru_cache', 'cache', 'cached_property', 'memoize', 'memoized')
+
+
+def fresh_values(ctx):
+    """Parsing never hands out an object that an earlier parse also handed out: no parser / factory of the codec modules
+    is memoised (the parsed values are mutable: AdvertisingData.append, list fields, payload bytearrays)."""
+    R, p = ctx.r, ctx.p
+    rule = 'C18.fresh-values'
+
+    def memo(fn):
+        out = []
+        for d in fn.decorator_list:
+            f = d.func if isinstance(d, ast.Call) else d
+            nm = (dotted(f) or '').split('.')[-1]
+            if nm in MEMO_DECORATORS:
+                out.append(nm)
+        return out
+    control = ast.parse('class X:\n    @classmethod\n    @functools.lru_cache(maxsize=64)\n    def from_bytes(cls, data):\n        return cls()\n').body[0].body[0]
+    n, bad = 0, []
+    for mod in CODEC_MODS + ['bumble.hci', 'bumble.gatt', 'bumble.at']:
+        m = p.modules.get(mod)
+        if m is None:
+            continue
+        for fn in [x for x in ast.walk(m.tree) if isinstance(x, FUNC)]:
+            if not (fn.name.startswith(('from_', 'parse', 'create', 'subclass_from')) or fn.name in ('dict_and_offset_from_bytes', 'dict_from_bytes')):
+                continue
+            n += 1
+            if memo(fn):
+                bad.append((p.qual_of(fn), memo(fn), m.rel + f':{fn.lineno}'))
+    for q, ds, loc in bad:
+        R.bad(rule, f'{q} | @{ds[0]}', f'{q} is memoised with @{ds[0]}: two parses of the same bytes return the same mutable object, so what a later parse returns depends on what was done to the result of an earlier one', loc)
+    R.check(memo(control) == ['lru_cache'] and n >= 60, rule, 'codec modules | parsers and factories', f'{n} from_*/parse*/create* functions, none memoised (positive control matched)', f'census too small ({n}) or positive control not matched')
+
+
 def sdp_depth(ctx):
     from . import c17
     c17.depth_balance(ctx, rule='C18.sdp-depth')
@@ -487,6 +564,8 @@ RULES = [
     ('C18.interning', interning),
     ('C18.sdp-tables', sdp_tables),
     ('C18.generic', generic),
+    ('C18.rtp-tail', rtp_tail),
+    ('C18.fresh-values', fresh_values),
 ]
 
 VARIANTS = [
